@@ -21,7 +21,7 @@ CONTIG = ("elf", "uf2", "bin", "amiga", "macho")           # serialise the whole
 class C03(Engine):
     prop = "C03"
     title = "every output format carries exactly the assembled memory image"
-    quick_budget = 45
+    quick_budget = 90
     quick_runs = 5000
     thorough_budget = 900
     variants = ("small",)
